@@ -531,6 +531,7 @@ def _create_sbml_reactions(
     sbml_model: libsbml.Model,
 ) -> None:
     """Create the reactions for the sbml model."""
+    references: set[str] = set()
     for name, rxn in model.get_raw_reactions().items():
         sbml_rxn = sbml_model.createReaction()
         sbml_rxn.setId(_convert_id_to_sbml(id_=name, prefix="RXN"))
@@ -552,6 +553,10 @@ def _create_sbml_reactions(
                     # SBML uses species references for derived stoichiometries
                     # So we need to create a assignment rule and then refer to it
                     reference = f"{compound_id}ref"
+                    if reference in references:
+                        # the same compound has a derived stoichiometry in an earlier reaction
+                        reference = f"{compound_id}ref_{name}"
+                    references.add(reference)
                     _create_derived_parameter(sbml_model, reference, factor)
 
                     sref = sbml_rxn.createProduct()
